@@ -627,6 +627,8 @@ def exec (s : Sys) (t : Nat) (op : Op) : Sys × Obs :=
     | some (some sp) => (s.newSpan t v name (issueToken sp) none, .ok)
   | .childN v name ps =>
     if ps.any (fun p => (assocGet s.spans p).isNone) then (s, .badOp "unknown span") else
+    -- a span derived only from no-op spans (or from no span at all) is a no-op span
+    if (ps.flatMap s.tokenOfVar).isEmpty then ({ s with spans := assocSet s.spans v none }, .ok) else
     (s.newSpan t v name (ps.flatMap s.tokenOfVar) none, .ok)
   | .childLocal v name =>
     match th.stack.currentToken with
